@@ -1607,7 +1607,7 @@ DoTraversalAux(TraversalContext & data, DataNode & node)
                      if (curCharIsEscape == false)
                      {
                              if ((prevCharWasEscape)||(c != ',')) scratchStr += c;
-                        else if (scratchStr.HasChars())
+                        else  // (an empty item too:  "a,,b" matches a child whose name is the empty string)
                         {
                            if (DoDirectChildLookup(data, node, scratchStr, entryIdx, alreadyDid, depth)) return depth;
                            scratchStr.Clear();
@@ -1617,10 +1617,7 @@ DoTraversalAux(TraversalContext & data, DataNode & node)
                      prevCharWasEscape = curCharIsEscape;
                      k++;
                   }
-                  if (scratchStr.HasChars())
-                  {
-                     if (DoDirectChildLookup(data, node, scratchStr, entryIdx, alreadyDid, depth)) return depth;
-                  }
+                  if (DoDirectChildLookup(data, node, scratchStr, entryIdx, alreadyDid, depth)) return depth;  // the last item, even if empty
                }
                else if (DoDirectChildLookup(data, node, key, entryIdx, alreadyDid, depth)) return depth;  // single-value-lookup case (most efficient)
             }
